@@ -29,6 +29,15 @@ class _Desugar(ast.NodeTransformer):
             a = self.visit_Return(ast.copy_location(ast.Return(value=v.body), v.body))
             b = self.visit_Return(ast.copy_location(ast.Return(value=v.orelse), v.orelse))
             return self._loc(ast.If(test=v.test, body=[a] if not isinstance(a, list) else a, orelse=[b] if not isinstance(b, list) else b), n)
+        # return bool(A and not B)   ->  if A and not B: return True  else: return False      (the truth value of E, by definition)
+        v2 = n.value
+        if isinstance(v2, ast.Call) and isinstance(v2.func, ast.Name) and v2.func.id == 'bool' and len(v2.args) == 1 and not v2.keywords:
+            e = v2.args[0]
+            if (isinstance(e, (ast.BoolOp, ast.Compare)) or (isinstance(e, ast.UnaryOp) and isinstance(e.op, ast.Not))) and \
+                    not any(isinstance(x, (ast.NamedExpr, ast.Yield, ast.YieldFrom, ast.Lambda)) for x in ast.walk(e)):
+                t_ = ast.copy_location(ast.Return(value=ast.copy_location(ast.Constant(value=True), n)), n)
+                f_ = ast.copy_location(ast.Return(value=ast.copy_location(ast.Constant(value=False), n)), n)
+                return self._loc(ast.If(test=e, body=[t_], orelse=[f_]), n)
         return n
 
     # -- named conditions:  t = A and not B ; ... if t:   is the same decision as   if A and not B:
@@ -83,7 +92,8 @@ class _Desugar(ast.NodeTransformer):
         exact = False
         while isinstance(value, ast.Call) and isinstance(value.func, ast.Name) and value.func.id == 'bool' and len(value.args) == 1 and not value.keywords:
             value, exact = value.args[0], True          # bool(E): the truth value of E, by definition
-        if not isinstance(value, (ast.BoolOp, ast.Compare)) and not (isinstance(value, ast.UnaryOp) and isinstance(value.op, ast.Not)):
+        if not isinstance(value, (ast.BoolOp, ast.Compare)) and not (isinstance(value, ast.UnaryOp) and isinstance(value.op, ast.Not)) and \
+                not (exact and isinstance(value, (ast.Name, ast.Attribute))):       # t = bool(x): the truth value of a plain name / attribute chain
             return None
         if any(isinstance(x, (ast.NamedExpr, ast.Await, ast.Yield, ast.YieldFrom, ast.Lambda)) for x in ast.walk(value)):
             return None
@@ -433,6 +443,7 @@ class Program:
             raise AnalysisError('no python modules found under %s' % self.root)
         self._index()
         self.inlined_helpers: set = set()
+        self.residual_helpers: set = set()  # inlined helpers that are still called somewhere as functions
         self.inline_prefixes: set = set()   # '<helper>_<n>__' prefixes given to inlined helpers' locals
         if inline:
             from .inline import Inliner
@@ -718,12 +729,15 @@ class Program:
             raise AnalysisError('anchor module %s not found' % name)
         return self.modules[name]
 
-    def all_functions(self, prefix: str = 'proxy', include_inlined: bool = False) -> Iterator[FuncInfo]:
+    def all_functions(self, prefix: str = 'proxy', include_inlined: Any = False) -> Iterator[FuncInfo]:
         """functions of the program; helpers whose bodies were inlined into their callers (sa/inline.py) are skipped
-        unless asked for, because their statements are analysed as part of the callers"""
+        unless asked for, because their statements are analysed as part of the callers; include_inlined='residual' adds only those
+        helpers that are still called as functions somewhere (a call the inliner could not expand)"""
         for k, f in self.functions.items():
             if f.module.name == prefix or f.module.name.startswith(prefix + '.'):
                 if not include_inlined and f.key in self.inlined_helpers:
+                    continue
+                if include_inlined == 'residual' and f.key in self.inlined_helpers and f.key not in self.residual_helpers:
                     continue
                 yield f
 
